@@ -537,6 +537,8 @@ class ktensor:
         if permutation is not None and isinstance(
             permutation, (tuple, list, np.ndarray)
         ):
+            # A tuple would be read as a multi-axis index below
+            permutation = np.asarray(permutation)
             if tuple(sorted(np.asarray(permutation).tolist())) == tuple(
                 range(self.ncomponents)
             ):
